@@ -634,7 +634,7 @@ consumption!(consume_pct_s, 2);
 consumption!(consume_dotstar_s, 4);
 //@harness name=consume_star_dotstar_s tier=thorough optional=1 timeout=3600 unwind=12 desc="'%*.*s': width, precision, value in that order" bounds="width/precision value 0..=3"
 consumption!(consume_star_dotstar_s, 5);
-//@harness tier=thorough optional=1 timeout=5400 desc="'%*.*d' with two *different* star values: the first value is the width, the second the precision, the third the number" bounds="width, precision 0..=5, number 0..=99"
+//@harness tier=thorough optional=1 timeout=3600 desc="'%*.*d' with two *different* star values: the first value is the width, the second the precision, the third the number" bounds="width, precision 0..=5, number 0..=99"
 #[kani::proof]
 #[kani::unwind(26)]
 pub fn consume_star_dotstar_d() {
